@@ -2,6 +2,7 @@ import CarModel.Proofs.IndexSer
 import CarModel.Proofs.IndexLoad
 import CarModel.Proofs.StoreInv
 import CarModel.Proofs.IndexSearch
+import CarModel.Proofs.IndexWf
 /-
 C11 — Index serialization is canonical and lossless.
 -/
@@ -91,6 +92,21 @@ theorem lookup_after_roundtrip_exact (codec : Nat) (rs : List Record) (ix : Inde
       (o ∈ ix'.getAll c ↔
         ∃ r ∈ rs, (codec = codecMhSorted → r.cid.mhCode = c.mhCode) ∧ r.cid.digest = c.digest ∧ r.offset = o) :=
   ⟨ix, index_roundtrip ix hwf rest, index_getAll_load codec rs ix h hoff c o⟩
+
+/-- (7) **`Load` produces a well-formed index**, so the round trip needs no premise about the index:
+    for every record set within the format's limits (digest + 8 ≤ 32 MiB, offsets and hash codes
+    below 2^64, fewer than 2^31 records) and either codec, reading back what `WriteTo` wrote for the
+    loaded index returns that index and leaves the following bytes alone. -/
+theorem load_roundtrip (codec : Nat) (rs : List Record) (ix : Index) (h : Index.load codec rs = some ix)
+    (hok : RecordsOK rs) (rest : Bytes) :
+    ix.wf ∧ Index.read (ix.bytes ++ rest) = .ok (ix, rest) :=
+  ⟨index_load_wf codec rs ix h hok, index_roundtrip ix (index_load_wf codec rs ix h hok) rest⟩
+
+/-- Non-vacuity of `RecordsOK`. -/
+example : RecordsOK [⟨⟨1, 0x55, 0x12, [2, 2]⟩, 5⟩, ⟨⟨1, 0x55, 0x12, [1, 9]⟩, 8⟩] :=
+  ⟨by intro r hr; simp at hr; rcases hr with rfl | rfl <;> decide,
+   by intro r hr; simp at hr; rcases hr with rfl | rfl <;> decide,
+   by intro r hr; simp at hr; rcases hr with rfl | rfl <;> decide, by decide⟩
 
 /-- Non-vacuity: a two-record load and a lookup that finds the second record. -/
 example : (8 : Nat) ∈ MultiWidth.getAll (MultiWidth.load [⟨⟨1, 0x55, 0x12, [2, 2]⟩, 5⟩, ⟨⟨1, 0x55, 0x12, [1, 9]⟩, 8⟩]) [1, 9] :=
